@@ -11,6 +11,7 @@ import zlib
 
 import common as C
 import proofs as P
+import tableaumc
 
 VAL_CFG = "SPECIFICATION Spec\nINVARIANT Publish\nINVARIANT OneOutcomeClass\nPOSTCONDITION Post\nCHECK_DEADLOCK FALSE\n"
 
@@ -38,6 +39,8 @@ def run(rep):
     rep.group_keys = ('clause', 'logic_family', 'root')
     d = C.subdir('c09')
     thorough = rep.tier == 'thorough'
+    # pipeline C: one verdict over ALL schedules of the calculus (rule table extracted from the code)
+    tableaumc.run(rep, ['CPL', 'K3', 'LP', 'FDE', 'L3', 'GO'] if thorough else ['CPL', 'K3', 'LP', 'FDE'], d, 'c09', full=thorough)
     import corpus
     jobs = []
     nargs = 0
